@@ -15,12 +15,16 @@
 #include <stdexcept>  // std::invalid_argument, std::logic_error
 
 #include "../Util/TypeTraits.h"
+#include "../Util/VerifHooks.h"
 
 namespace Spectra {
 
 template <typename Scalar = double>
 class DoubleShiftQR
 {
+#ifdef SPECTRA_VERIF
+    friend struct ::SpectraVerifAccess;
+#endif
 private:
     using Index = Eigen::Index;
     using Matrix = Eigen::Matrix<Scalar, Eigen::Dynamic, Eigen::Dynamic>;
